@@ -18,7 +18,7 @@ from ..core.simdisk import SimBudgetExceeded
 from ..core.canon import digest as cdigest, jsonable
 from ..core.ddmin import ddmin
 from ..ops.base import Ctx, OPS, END
-from ..ops import elf_ops, dwarf_ops  # noqa: F401  (register ops)
+from ..ops import elf_ops, dwarf_ops, session_ops  # noqa: F401  (register ops)
 from ..ops import catalog, pool as poolmod
 
 ENGINE = 'histsim'
@@ -98,11 +98,11 @@ def _prep_file(task):
         return res
     r = substream(h64(seed, 'pool', name, focus or ''), 'pool')
     gen = poolmod.Gen(cat, r)
-    res['kinds'] = gen.kinds
     if want_ops is not None:
         ops = want_ops
     else:
         ops = gen.pool(110 if tier == 'quick' else 320, focus)
+    res['kinds'] = gen.kinds
     for op in ops:
         key = json.dumps(op)
         try:
@@ -135,7 +135,11 @@ def _prep_file(task):
 
 
 def _kind(op):
-    return op[1][0] if op[0] in ('x2', 'dwarf_again') else op[0]
+    if op[0] in ('x2', 'dwarf_again'):
+        return _kind(op[1])
+    if op[0] == 'session':
+        return 'session:%s' % (op[3] if len(op) > 3 else op[1][0])
+    return op[0]
 
 
 def _file_info(name):
